@@ -9,7 +9,7 @@ from .core import Case
 from .policygen import mix
 
 START_DEFAULT = 946684800000000000
-CB = re.compile(r"^(exit|evict|reject|done):")
+CB = re.compile(r"^(exit|evict|reject|done|rwset):")
 
 
 def probe(ctx):
@@ -49,6 +49,10 @@ def annotate(case, impl_lines):
         done = {t[5:] for t in toks if t.startswith("done:")}
         if fs[0] == "tok" and pending and not (pending & done):
             op = "tok hold"
+        if fs[0] == "sweeprw":
+            # which of the two keys the sweep visited first (Go map order), and whether the rewrite happened
+            first = [t.split(":")[1] for t in toks if t.startswith("rwset:")]
+            op = op + " " + (first[0] if first else "none")
         pending -= done
         ops.append(op)
     return Case(case.id, case.comp, case.args, ops, case.tags)
@@ -187,7 +191,7 @@ def parse_line(line):
     """-> (result tokens, [callback tokens in the order they were made], [done ids])"""
     fs = line.split()
     res = [f for f in fs if not CB.match(f)]
-    cbs = [f for f in fs if CB.match(f) and not f.startswith("done:")]
+    cbs = [f for f in fs if CB.match(f) and not f.startswith("done:") and not f.startswith("rwset:")]
     done = [f[5:] for f in fs if f.startswith("done:")]
     return res, cbs, done
 
